@@ -78,3 +78,22 @@ Proof. exact atr_one_price_binary64. Qed.
 Theorem C10_atr_one_price_stream_binary64 : forall p a xs o v, atr_new FOps p = Ok a -> Forall finF xs ->
   atr_bar_outs FOps a (map (fun x => one_bar o v x) xs) = atr_outs FOps a xs.
 Proof. exact atr_one_stream_binary64. Qed.
+
+(* KeltnerChannel on binary64, one-price bars vs the scalar path, streams of ANY length: the ATR term is the same float bit for bit, the
+   bands are formed from it by the same two operations, and the middle lines — float EMAs of (x + x + x) / 3 and of x — stay within
+   17 (n+1) u M + 17 (n+1) u (2M) + 8 u M of each other ("within rounding of (x+x+x)/3"; u = 2^-53, M bounds the prices) *)
+From Coq Require Import Reals.
+From Flocq Require Import Core.
+From TA Require Import Proofs.Wiring Proofs.FloatSma Proofs.FloatMacd Proofs.FloatKcOne.
+Theorem C10_kc_one_price_binary64 : forall p mu k xs (o v : PrimFloat.float) M, kc_new FOps p mu = Ok k -> (p < 35184372088832)%N ->
+  (1 <= M)%R -> (4 * M <= bpow radix2 900)%R -> Forall (okin M) xs ->
+  let bar := kc_bar_outs FOps k (map (fun x => one_bar o v x) xs) in
+  let sca := kc_outs FOps k xs in
+  length bar = length xs /\ length sca = length xs /\
+  forall j, (j < length xs)%nat -> exists ab a w,
+    nth j bar [] = bands FOps mu ab w /\ nth j sca [] = bands FOps mu a w /\ finF ab /\ finF a /\
+    (Rabs (FR ab - FR a) <= ebound p M + ebound p (2 * M) + 8 * u * M)%R.
+Proof. exact kc_one_price_float. Qed.
+Theorem C10_typical_one_price_binary64 : forall M (o v x : PrimFloat.float), (1 <= M)%R -> (4 * M <= bpow radix2 900)%R -> okin M x ->
+  okin (2 * M) (typical FOps (one_bar o v x)) /\ (Rabs (FR (typical FOps (one_bar o v x)) - FR x) <= 8 * u * M)%R.
+Proof. exact typical_one_close. Qed.
